@@ -1,0 +1,20 @@
+//go:build verif && linux
+
+package kcp
+
+import (
+	"net"
+	"sync/atomic"
+)
+
+var verifBatchConnHook atomic.Pointer[func(conn net.PacketConn) (batchConn, bool)]
+
+// verifBatchConn is called first thing in newBatchConn. The hook may supply the
+// batch-IO object for a PacketConn (true result), so that the recvmmsg/sendmmsg
+// code paths can be driven over a transport that is not a kernel socket.
+func verifBatchConn(conn net.PacketConn) (batchConn, bool) {
+	if h := verifBatchConnHook.Load(); h != nil {
+		return (*h)(conn)
+	}
+	return nil, false
+}
